@@ -7,7 +7,7 @@ escapes, F6 no list value used as a dictionary key.
 """
 import ast
 
-from sa.model import AnalysisError, walk_no_nested, norm, call_name, stmt_of
+from sa.model import mangle, AnalysisError, walk_no_nested, norm, call_name, stmt_of
 from sa.util import fact_atom, cmp_parts, const_value, bound_arg, contains
 from sa.consteval import TOP
 from .c12 import FactoryRoles
@@ -518,10 +518,58 @@ def replace_chain_ok(prog, e):
     return bool(bs and dq and min(bs) < min(dq))
 
 
+ESCAPE_SAMPLES = ["", "a", 'a"b', "a\\b", '\\"', '"\\', "x\\", '""', '\\\\"', 'she said \\"no\\"', "tab\there", "\u00e9\"\u00e9"]
+
+
 def is_escaper(prog, f):
     rets = [r.value for r in walk_no_nested(f.node) if isinstance(r, ast.Return) and r.value is not None]
     own = [p_ for p_ in f.params if not (f.cls is not None and "staticmethod" not in f.decorators and p_ == f.params[0])]
-    return len(rets) == 1 and isinstance(rets[0], ast.Call) and replace_chain_ok(prog, rets[0]) and len(own) == 1
+    if len(rets) == 1 and isinstance(rets[0], ast.Call) and replace_chain_ok(prog, rets[0]) and len(own) == 1:
+        return True
+    return len(own) == 1 and escapes_by_evaluation(prog, f, own[0]) is True
+
+
+def escapes_by_evaluation(prog, f, param):
+    """The function interpreted over sample values: True when every result is the value with each backslash and each double quote
+    preceded by a backslash (whatever the spelling: a replace chain, one regular expression, a translation table), False when a result
+    differs, None when the interpreter cannot follow the function."""
+    from sa import fd
+    from sa.util import module_resolver
+    cache = getattr(prog, "_escaper_eval", None)
+    if cache is None:
+        cache = prog._escaper_eval = {}
+    if f.qualname in cache:
+        return cache[f.qualname]
+    res = True
+
+    def oracle(interp, e, name, recv, args, kw, st):
+        fn = e.func
+        if isinstance(fn, ast.Name) and fn.id in f.module.funcs and f.module.funcs[fn.id].node is not interp.f:
+            return fd.Inline(f.module.funcs[fn.id])
+        if name and name.startswith("self.") and f.cls is not None:
+            m = prog.method(f.cls, name[5:]) or prog.method(f.cls, mangle(f.cls.name, name[5:]))
+            if m is not None and m.node is not interp.f:
+                return fd.Inline(m)
+        return None
+    for sample in ESCAPE_SAMPLES:
+        it = fd.Interp(f.node, f.cls.name if f.cls else None, oracle, resolve=module_resolver(prog, f.module), loop_unroll=4 * len(sample) + 8, max_paths=40)
+        env = {param: fd.Const(sample)}
+        if f.cls is not None and f.params and f.params[0] != param:
+            for a_, v_ in f.cls.attrs.items():
+                pass
+        try:
+            ps = it.run(env)
+        except (fd.TooManyPaths, RecursionError):
+            res = None
+            break
+        if len(ps) != 1 or ps[0].kind != "return" or not isinstance(ps[0].value, fd.Const) or not isinstance(ps[0].value.v, str):
+            res = None
+            break
+        if ps[0].value.v != sample.replace("\\", "\\\\").replace('"', '\\"'):
+            res = False
+            break
+    cache[f.qualname] = res
+    return res
 
 
 def const_of(e):
